@@ -687,11 +687,25 @@ func (g *Eng) snapFail() string {
 
 // ---------------------------------------------------------------- compaction
 
+// group resolves file positions i..j to paths.  Like the planner (which plans whole
+// tsmGenerations) it refuses a group that splits a generation: after a crash inside
+// FileStore.replace the output of a compaction shares the generation of the group's last
+// member, and compacting only part of that generation would produce a name that is live.
 func (g *Eng) group(is, js string) (tsm1.CompactionGroup, bool) {
 	i, e1 := strconv.Atoi(is)
 	j, e2 := strconv.Atoi(js)
 	files := g.e.FileStore.Files()
 	if e1 != nil || e2 != nil || i < 0 || j < i || j >= len(files) {
+		return nil, false
+	}
+	gen := func(k int) int {
+		n, _, err := g.e.FileStore.ParseFileName(files[k].Path())
+		if err != nil {
+			return -1 - k
+		}
+		return n
+	}
+	if (i > 0 && gen(i-1) == gen(i)) || (j+1 < len(files) && gen(j+1) == gen(j)) {
 		return nil, false
 	}
 	var grp tsm1.CompactionGroup
